@@ -64,8 +64,8 @@ func c11R6(c *Ctx, p *Prog) {
 		}
 	}
 	if n == 0 {
-		// written without a loop (two spelled-out halves): nothing carried by construction of this rule; say so
-		c.Undec(rule, "InvalidPieceCount#per-colour", fn.Pos(), "no loop over the two colours found in InvalidPieceCount")
+		// written without a loop (two spelled-out halves): nothing is carried between iterations
+		c.OkTrivial(rule, "InvalidPieceCount#per-colour", fn.Pos(), "no loop over the two colours: nothing can be carried from one side to the other")
 	}
 }
 
